@@ -263,6 +263,7 @@ func c09(c *Ctx) {
 			c.Bad("R5", "vote:send", c.P.Pos(fn.Pos()), "vote() notifies through notifyCh", "no send found")
 		}
 	}
+	sLockDiscipline(c, "R8/S-LOCK", "followerReplication", "verifyFuture")
 }
 
 // c09R7: an acknowledgement may only count for a verify future if the request
